@@ -13,6 +13,8 @@ PINNED = [["start_a", "0", "enter"], ["start_p"] + ["9"] * 20 + ["enter"],
           ["start_p", "sp", "c", "h", "r", "h", "l", "c", "j", "g", "k", "sp", "h", "h", "h"],
           ["start_p", "k", "k", "k", "k", "k", "g", "k", "sp", "k", "k"], ["start_a", "j", "j", "j", "j", "j", "j", "sp", "r", "h", "c", "b"],
           ["start_a", "j", "j", "j", "sp", "k", "k", "g", "1", "dot", "k"],
+          # a collection opened by its address, walked to its end and back
+          ["start_p", "colon", "open_c", "enter", "j", "j", "j", "j", "j", "sp", "h", "k", "k", "k", "k", "k"], ["start_a", "colon", "open_c", "enter", "j", "sp", "h", "g", "a"],
           # 'g' on pages that list items (no centre), after moving
           ["start_a", "colon", "feed_f", "enter", "g", "j", "g", "k", "g"], ["start_p", "j", "c", "g", "j", "g", "sp"],
           # the media hook still running while further keys arrive; its end ("hookexit") is a step of its own
